@@ -45,6 +45,11 @@ def run(ctx):
             generators(ctx, f, cfg)
             premises(ctx, f, cfg)
             underflow(ctx, f, cfg)
+            # overflow asserts are listed only (profile dependent), with one exception that is decidable from the types: the ms<->ns
+            # factor applied in 32-bit arithmetic overflows inside the documented range of the rule fields (panic in the generator,
+            # under the manager locks)
+            from . import rules_C07
+            rules_C07.pacing_arithmetic(ctx, f, cfg, R="C12.overflow/unit-conversion")
             # a statistics object is handed to a checker that did not fill it only if the reuse predicate ignores what selects the
             # checker: the hotspot reject checker then retries forever on a value the throttling checker registered (hang)
             from . import rules_C11
